@@ -253,6 +253,17 @@ namespace
                 if (n == 8) return via_array(std::integral_constant<size_t, 8>());
                 if (n == 16) return via_array(std::integral_constant<size_t, 16>());
             }
+            if (n % 4 == 1 && memchr(in.get(), 0, n) == nullptr)
+            {
+                // a payload without zero bytes handed over as a C string, as (void*, int), and through a copy of the buffer
+                std::string z(in.get(), n);
+                Bytes a1 = gstuffing(igris::buffer(z.c_str()), ctx);
+                igris::buffer b2((const void *)in.get(), (int)n);
+                igris::buffer b3(b2);
+                Bytes a3 = gstuffing(b3, ctx);
+                if (a1 != a3) violate("C04/frame-bytes", "the same %zu payload bytes framed from a C string and from a copied (void*, int) buffer give different frames", n);
+                return a1;
+            }
             if (n % 4 == 3)
             {
                 // the payload is the tail of a bigger message (a header in front of it), handed over as a slice that ends where
